@@ -168,7 +168,26 @@ def make_file(rng, fmt):
     if fmt == "krome":
         nre, npr = rng.randint(2, 3), rng.randint(2, 5)
         reacs = [r for r in reacs if len(r["reactants"]) <= nre and len(r["products"]) <= npr] or reacs[:0]
-        kfmt = "idx," + ",".join(["R"] * nre + ["P"] * npr) + ",Tmin,Tmax,rate"
+        # column layouts the @format directive allows: index / temperature columns may be absent or come first
+        layout = rng.choice(["full", "full", "no_idx", "no_T", "T_first", "idx_T_first"])
+        rp = ["R"] * nre + ["P"] * npr
+        cols = {"full": ["idx"] + rp + ["Tmin", "Tmax", "rate"], "no_idx": rp + ["Tmin", "Tmax", "rate"], "no_T": ["idx"] + rp + ["rate"],
+                "T_first": ["Tmin", "Tmax"] + rp + ["rate"], "idx_T_first": ["idx", "Tmin", "Tmax"] + rp + ["rate"]}[layout]
+        for r in reacs:
+            if "idx" not in cols:
+                r["idx"] = -1
+            if "Tmin" not in cols:
+                r["tmin"], r["tmax"] = -1.0, -1.0
+        if cols[0] == "R":
+            # '#' at the start of a line is KROME's comment marker: a line cannot begin with an ice species
+            keep = []
+            for r in reacs:
+                first = [x for x in r["reactants"] if not x.startswith("#")]
+                if first:
+                    r["reactants"] = [first[0]] + [x for i, x in enumerate(r["reactants"]) if i != r["reactants"].index(first[0])]
+                    keep.append(r)
+            reacs = keep
+        kfmt = ",".join(cols)
         lines.append(rng.choice(["#An artificial network", "// comment"]))
         lines.append("@format:" + (kfmt if rng.random() < 0.5 else kfmt.lower()))
         if rng.random() < 0.5:
@@ -176,7 +195,7 @@ def make_file(rng, fmt):
             lines.append("@var:Hnuclei = get_Hnuclei(n(:))")
             lines.append("@var:Te = Tgas*8.617343d-5")
         for r in reacs:
-            lines.append(encode.krome_line(r, nre, npr, r.get("tmin_s"), r.get("tmax_s")))
+            lines.append(encode.krome_line_cols(r, cols, r.get("tmin_s"), r.get("tmax_s")))
             datalines.append(r)
             if rng.random() < 0.15:
                 lines.append(rng.choice(["#comment in the middle", "//another", "@var:invTe = 1d0/Te"]))
@@ -193,7 +212,8 @@ def make_file(rng, fmt):
     eol = rng.choice(["\n", "\n", "\n", "\r\n"])
     final_nl = rng.random() < 0.8
     text = eol.join(lines) + (eol if final_nl else "")
-    return {"format": fmt, "text": text, "reactions": datalines, "noise": noise, "eol": "crlf" if eol == "\r\n" else "lf", "final_nl": final_nl}
+    return {"format": fmt, "text": text, "reactions": datalines, "noise": noise, "eol": "crlf" if eol == "\r\n" else "lf", "final_nl": final_nl,
+            "krome_layout": layout if fmt == "krome" else None}
 
 
 FORMATS = ["kida", "umist", "leeds", "uclchem", "krome", "naunet"]
@@ -230,6 +250,8 @@ def run_case(case, ctx):
     exp = case["reactions"]
     got = net.reaction_list
     obs["lines_" + fmt] += len(exp)
+    if case.get("krome_layout"):
+        obs["krome_layout_" + case["krome_layout"]] += 1
     if case["noise"] != "none":
         obs["files_with_blank_lines"] += 1
     if len(got) != len(exp):
